@@ -39,7 +39,7 @@ def World.findSubs (w : World) (caller : Uid) (lvl : Level) (req : List (List St
   let activeOnly := lvl ≠ .root
   let users := w.users.filterMap (fun u =>
     if u.uid = caller then none
-    else if activeOnly ∧ u.suspended then none
+    else if activeOnly ∧ (u.suspended ∨ u.deleted) then none
     else match matchTags u.tags req opt with
       | some f => some { name := u.uid, mode := (match lvl with | .anon => u.anon | _ => u.auth), tags := f }
       | none => none)
